@@ -1,4 +1,5 @@
-/-! Driver executable for family `evm` — placeholder until the family is built. -/
+import Whv.Driver.Evm
+/-! Driver executable for family `evm` (C10): case lines on stdin, verdict lines on stdout. -/
 def main : IO UInt32 := do
-  IO.eprintln "family not built"
-  return 2
+  Whv.Driver.EvmFam.run (← IO.getStdin)
+  return 0
